@@ -276,6 +276,10 @@ def run(prop, seed, budget, ctx):
                         want = outcome(lambda: json.loads(json.dumps(fn(fcm[ref], all_refs=all_refs, with_schema=False)).replace(ref, "H")))
                     finally: _sys.setrecursionlimit(lim)
                     if got != want: fail("schema-of-the-converted-class-differs-from-its-source/target", desc={"field_conversion_to": holder, "all_refs": all_refs}, view=view, got=show(got), expected=show(want))
+    import corners7
+    cf_, cn_, cd_, ch_ = corners7.run_part("C12", seed, budget)
+    failures += cf_; distinct |= cd_; evaluations += cn_
+    for k_, v_ in ch_.items(): hist[k_] += v_
     return {"evaluations": evaluations, "distinct_nontrivial": len(distinct),
             "rule": "field conversions to sources with named / recursive types (schemas with references); method / property serializers (registered or dynamic) with overriding subclasses; dynamic / field conversions next to unsupported union alternatives (operations and schemas); "
                     "fresh wrapper classes with a deserializer S -> W and a serializer W -> S over six source types, registered or dynamic, 40% of the "
